@@ -202,6 +202,9 @@ func (r *Run) Finish() int {
 		ev["assumptions"] = []string{}
 	}
 	dir := filepath.Join(VerifRoot(), "evidence")
+	if d := os.Getenv("VERIF_EVIDENCE_DIR"); d != "" {
+		dir = d // runs against a scratch checkout (seeded changes) must not overwrite the evidence of the real tree
+	}
 	os.MkdirAll(dir, 0o755)
 	b, _ := json.MarshalIndent(ev, "", " ")
 	if err := os.WriteFile(filepath.Join(dir, r.Prop+".json"), b, 0o644); err != nil {
